@@ -277,7 +277,7 @@ func isKnownAxis(s string) bool {
 func init() {
 	explore.Register(&explore.Property{
 		ID: "C17", Level: "exploration",
-		Rule: "every valid expression of a slice touching every construct (paths, predicates, comparisons, every function, unions, groups, both quote styles, prefixed names) is damaged by every operator of the property at every applicable position: cut after an operator / slash / [ / ( / , / @ / :: / inside a literal; delete one closing ] ) or quote; rename a function to an unknown name; remove arguments below the function's minimum; unknown axis names; malformed qualified names. Compile must return an error for every damaged string that the reference XPath 1.0 grammar (with the function table) also rejects; damaged strings the reference accepts are counted as damage_still_valid and skipped; non-trivial/distinct = distinct (construct, damage operator, expression)",
+		Rule: "every valid expression of a slice touching every construct (paths, predicates, comparisons, every function, unions, groups, both quote styles, prefixed names) is damaged by every operator of the property at every applicable position: cut after an operator / slash / [ / ( / , / @ / :: / inside a literal; delete one closing ] ) or quote; rename a function to an unknown name; remove arguments below the function's minimum; unknown axis names (five fixed ones plus ten near misses of EVERY axis name: one letter more / fewer, prefix, suffix); malformed qualified names. Compile must return an error for every damaged string that the reference XPath 1.0 grammar (with the function table) also rejects; damaged strings the reference accepts are counted as damage_still_valid and skipped; non-trivial/distinct = distinct (construct, damage operator, expression)",
 		Assumptions:    []string{"hand-written reference grammar decides which damaged strings are ill-formed", "function arity table = XPath 1.0 core + README extras"},
 		Budget:         budget(60*time.Second, 8*time.Minute),
 		MinRefOutcomes: 8,
